@@ -263,6 +263,7 @@ def extract_kernel(repo, spec):
     src = strip_comments(raw)
     start, bo, bc = find_function(src, spec["func"], spec.get("nth", 0))
     body = src[bo + 1 : bc]
+    init_stm = ""
     if spec.get("init_list"):
         # constructor: the member-initialiser list ": m1(e1), m2(e2) ..." between the parameter list and '{' becomes the
         # assignments "self->m1 = e1; ..." in front of the body (order as written; only 'member(expr)' items accepted)
@@ -277,7 +278,7 @@ def extract_kernel(repo, spec):
             if not mi:
                 raise ExtractionError("kernel %s: initialiser '%s' is not of the form member(expr)" % (spec["name"], it))
             stm.append("self->%s = %s;" % (mi.group(1), mi.group(2)))
-        body = "\n".join(stm) + "\n" + body
+        init_stm = "\n".join(stm) + "\n"
     line0 = src.count("\n", 0, start) + 1
     line1 = src.count("\n", 0, bc) + 1
     region = src[start : bc + 1]
@@ -330,6 +331,9 @@ def extract_kernel(repo, spec):
                 body = nb
             if used:
                 log.append("rule inline_local_consts: %s" % ", ".join(sorted(set(used))))
+    if init_stm:
+        body = init_stm + body
+        region = init_stm + region
     sha = hashlib.sha256(region.encode()).hexdigest()
     body = resolve_conditionals(body, repo, log)
     body = apply_rules(body, spec.get("rules", []), log, spec["name"])
